@@ -432,6 +432,9 @@ func hC14Alias() {
 	verifObsInt("status-b", int64(statusB))
 	verifObsInt("a-bytes", int64(len(backendA.rec.body)))
 	verifReach("two-uploads")
+	if !overlap {
+		verifAssert(backendB.rec.calls == 1 && statusB == 200 && bytesEq(backendB.rec.body, expandBytes(rawB, expand)), "C15: an upload served after an earlier one reaches its backend unchanged")
+	}
 	verifAssert(backendA.rec.calls == 1 && statusA == 200 && bytesEq(backendA.rec.body, expandBytes(rawA, expand)), "C14: the bytes of an upload reach its backend unchanged while another upload is served in between")
 	verifAssert(backendB.rec.calls == 1 && statusB == 200 && bytesEq(backendB.rec.body, expandBytes(rawB, expand)), "C14: the upload served in between reaches its backend unchanged")
 	verifAssert(poolsSound(tr), "C14: no two pooled buffers share memory after the uploads")
